@@ -121,6 +121,13 @@ Lemma equiv_l_trans a b c : equiv_l a b -> equiv_l b c -> equiv_l a c.
 Proof. intros H1 H2 e. rewrite (H1 e). apply H2. Qed.
 Lemma equiv_l_swap a b : equiv_l [a; b] [b; a].
 Proof. intros e. rewrite !In_u_cons. pose proof (In_u_nil e). tauto. Qed.
+Lemma equiv_l_of_incl l l' :
+  (forall x, In x l -> In_u x l') -> (forall y, In y l' -> In_u y l) -> equiv_l l l'.
+Proof.
+  intros H1 H2 e. split; intros [x [Hx E]].
+  - eapply In_u_eq_u; eauto.
+  - eapply In_u_eq_u; eauto.
+Qed.
 Lemma equiv_l_map_norm l : equiv_l l (map norm l).
 Proof.
   intros e. rewrite !In_u_norm. rewrite map_map.
@@ -1074,11 +1081,36 @@ Section PruneLemmas.
 End PruneLemmas.
 
 (* ================================================================== soundness of the enumeration *)
+(* the finitely many candidate edits the enumeration can ever test for a given reactant / product *)
+Definition all_funcs : list func := [F1b; F2b; F1b1f; F2b1f; F2b2f].
+Definition all_cands (r p : graph) : list cand :=
+  match classify r (bond_types p) (bond_types r) book0 with
+  | Some bk => flat_map (fun f => opt_list (cands f bk)) all_funcs
+  | None => []
+  end.
+(* the isomorphism oracle is right on the finitely many questions the enumeration can ask *)
+Definition Hiso_on (iso_b : graph -> graph -> bool) (r p : graph) : Prop :=
+  (iso_b r p = true <-> Iso r p) /\
+  forall c, In c (all_cands r p) ->
+    (iso_b (apply_edit r (fst c) (snd c)) p = true <-> Iso (apply_edit r (fst c) (snd c)) p).
+Lemma Hiso_global_on iso_b r p : (forall g h, iso_b g h = true <-> Iso g h) -> Hiso_on iso_b r p.
+Proof. intros H. split; [apply H|intros c _; apply H]. Qed.
+Lemma cands_in_all r p bk f cs c :
+  classify r (bond_types p) (bond_types r) book0 = Some bk -> cands f bk = Some cs -> In c cs ->
+  In c (all_cands r p).
+Proof.
+  intros Ec Ef Hin. unfold all_cands. rewrite Ec. apply in_flat_map. exists f. split.
+  - unfold all_funcs. destruct f; cbn; auto 10.
+  - rewrite Ef. exact Hin.
+Qed.
+
 Section Sound.
   Variable iso_b : graph -> graph -> bool.
   Variable mv : nat -> nat.
   Variables r p : graph.
-  Hypothesis Hiso : forall g h, iso_b g h = true -> Iso g h.
+  Variable CS : cand -> Prop.
+  Hypothesis Hs : forall c, CS c -> iso_b (apply_edit r (fst c) (snd c)) p = true ->
+                            Iso (apply_edit r (fst c) (snd c)) p.
 
   Definition sound_rearr (x : rearr) : Prop :=
     (forall b, In b (snd x) -> In_u b (g_edges r)) /\
@@ -1086,42 +1118,49 @@ Section Sound.
     Iso (apply_edit r (fst x) (snd x)) p.
 
   Lemma cand_sound fb bb :
-    cand_ok r (fb, bb) -> iso_b (apply_edit r fb bb) p = true -> sound_rearr (ordered fb, ordered bb).
+    cand_ok r (fb, bb) -> CS (fb, bb) -> iso_b (apply_edit r fb bb) p = true ->
+    sound_rearr (ordered fb, ordered bb).
   Proof.
-    intros [Hf Hb] Hi. unfold sound_rearr; cbn [fst snd]. repeat split.
+    intros [Hf Hb] Hc Hi. unfold sound_rearr; cbn [fst snd]. repeat split.
     - intros b Hin. pose proof (ordered_equiv bb b) as E. destruct E as [E _].
       destruct (E (In_In_u _ _ Hin)) as [y [Hy Ey]]. apply (In_u_eq_u y b); auto. apply In_In_u. apply Hb; auto.
     - intros f Hin Hu. pose proof (ordered_equiv fb f) as E. destruct E as [E _].
       destruct (E (In_In_u _ _ Hin)) as [y [Hy Ey]]. apply (Hf y Hy). apply (In_u_eq_u f y); auto. apply eq_u_sym; auto.
-    - apply Iso_trans with (apply_edit r fb bb); [|apply Hiso; auto].
+    - apply Iso_trans with (apply_edit r fb bb); [|apply (Hs (fb, bb) Hc); auto].
       apply adj_equiv_Iso, apply_adj_equiv; apply ordered_equiv.
   Qed.
 
   Lemma run_funcs_sound bk fs : forall acc l,
-    book_ok r bk -> (forall x, In x acc -> sound_rearr x) ->
+    book_ok r bk -> (forall f cs c, In f fs -> cands f bk = Some cs -> In c cs -> CS c) ->
+    (forall x, In x acc -> sound_rearr x) ->
     run_funcs iso_b mv r p bk fs acc = Ok l -> l <> [] /\ forall x, In x l -> sound_rearr x.
   Proof.
-    induction fs as [|f fs IH]; intros acc l Hok Hacc; cbn [run_funcs]; [discriminate|].
+    induction fs as [|f fs IH]; intros acc l Hok Hcs Hacc; cbn [run_funcs]; [discriminate|].
     destruct (cands f bk) as [cs|] eqn:Ec; [|discriminate].
-    assert (Hs : forall x, In x (run_func iso_b mv r p cs acc) -> sound_rearr x).
+    assert (Hsx : forall x, In x (run_func iso_b mv r p cs acc) -> sound_rearr x).
     { intros x Hx. apply run_sound in Hx. destruct Hx as [Hx|[fb [bb [Hin [-> Hi]]]]]; auto.
-      apply cand_sound; auto. eapply cands_ok; eauto. }
+      apply cand_sound; auto.
+      - eapply cands_ok; eauto.
+      - apply (Hcs f cs); auto. left; auto. }
     destruct (0 <? length (run_func iso_b mv r p cs acc)) eqn:E.
     - intros H; inversion H; subst. split; auto. apply Nat.ltb_lt in E. intros E'. rewrite E' in E. cbn in E; lia.
-    - apply IH; auto.
-  Qed.
-
-  Lemma enumerate_sound n l :
-    enumerate iso_b mv r p n = Ok l -> l <> [] /\ forall x, In x l -> sound_rearr x.
-  Proof.
-    unfold enumerate. destruct (iso_b r p && (3 <? n)); [discriminate|].
-    destruct (classify r (bond_types p) (bond_types r) book0) as [bk|] eqn:Ec; [|discriminate].
-    destruct (funcs_of (length (g_edges r)) (length (g_edges p))) as [fs|]; [|discriminate].
-    apply run_funcs_sound.
-    - eapply classify_ok; eauto; [apply book0_ok | apply bond_types_ok].
-    - intros x [].
+    - apply IH; auto. intros f' cs' c Hf'. apply Hcs. right; auto.
   Qed.
 End Sound.
+
+Lemma enumerate_sound iso_b mv r p n l :
+  (forall c, In c (all_cands r p) -> iso_b (apply_edit r (fst c) (snd c)) p = true ->
+             Iso (apply_edit r (fst c) (snd c)) p) ->
+  enumerate iso_b mv r p n = Ok l -> l <> [] /\ forall x, In x l -> sound_rearr r p x.
+Proof.
+  intros Hs. unfold enumerate. destruct (iso_b r p && (3 <? n)); [discriminate|].
+  destruct (classify r (bond_types p) (bond_types r) book0) as [bk|] eqn:Ec; [|discriminate].
+  destruct (funcs_of (length (g_edges r)) (length (g_edges p))) as [fs|]; [|discriminate].
+  apply (run_funcs_sound iso_b mv r p (fun c => In c (all_cands r p)) Hs).
+  - eapply classify_ok; eauto; [apply book0_ok | apply bond_types_ok].
+  - intros f cs c _ Ef Hin. eapply cands_in_all; eauto.
+  - intros x [].
+Qed.
 
 (* ================================================================== completeness: infrastructure *)
 Lemma key_eqb_spec (a b : key) : reflect (a = b) (key_eqb a b).
@@ -1184,7 +1223,7 @@ Section Complete.
   Variable iso_b : graph -> graph -> bool.
   Variable mv : nat -> nat.
   Variables r p : graph.
-  Hypothesis Hiso : forall g h, iso_b g h = true <-> Iso g h.
+  Hypothesis Hloc : Hiso_on iso_b r p.
   Hypothesis Hwr : wf r.
   Hypothesis Hwp : wf p.
 
@@ -1260,11 +1299,13 @@ Section Complete.
     clean r fb bb -> Iso (apply_edit r fb bb) p ->
     (forall i, In i (g_nodes r) ->
        degree (apply_edit r fb bb) i <= Nat.max (mv (g_label r i)) (degree r i)) ->
+    (forall c, In c cs -> In c (all_cands r p)) ->
     hit fb bb cs -> 0 < length (run_func iso_b mv r p cs acc).
   Proof.
-    intros C HI Hdeg [fb' [bb' [Hin [Ef Eb]]]]. eapply run_hit; eauto.
+    intros C HI Hdeg Hsub [fb' [bb' [Hin [Ef Eb]]]]. eapply run_hit; eauto.
     - eapply valence_ok_of_premise; eauto.
-    - apply Hiso. apply Iso_trans with (apply_edit r fb bb); auto.
+    - apply (proj2 Hloc (fb', bb') (Hsub _ Hin)). cbn [fst snd].
+      apply Iso_trans with (apply_edit r fb bb); auto.
       apply adj_equiv_Iso, apply_adj_equiv; apply equiv_l_sym; auto.
   Qed.
 
@@ -1816,47 +1857,55 @@ Section Complete.
   Qed.
 
   Theorem enumerate_complete fb bb n :
-    clean r fb bb -> Iso (apply_edit r fb bb) p -> ~ Iso r p ->
+    clean r fb bb -> Iso (apply_edit r fb bb) p ->
+    (~ Iso r p \/ (n <= 3 /\ bb <> [])) ->
     (forall i, In i (g_nodes r) ->
        degree (apply_edit r fb bb) i <= Nat.max (mv (g_label r i)) (degree r i)) ->
     length bb <= 2 -> length fb <= length bb ->
     exists l, enumerate iso_b mv r p n = Ok l.
   Proof.
-    intros Cl HI Hnot Hdeg Lb Lf.
+    intros Cl HI Hgo Hdeg Lb Lf.
     destruct (canonize fb bb Cl HI) as [fb' [bb' [C [Ef [Eb [Lf' Lb']]]]]].
-    assert (HR : forall cs acc, hit fb' bb' cs -> (0 <? length (run_func iso_b mv r p cs acc)) = true).
-    { intros cs acc H. apply Nat.ltb_lt. apply (hit_run fb bb cs acc Cl HI Hdeg).
-      eapply hit_equiv; eauto. }
+    pose proof (cedit_classify _ _ C) as Ecl.
+    assert (HR : forall f cs acc, cands f bk = Some cs -> hit fb' bb' cs ->
+                 (0 <? length (run_func iso_b mv r p cs acc)) = true).
+    { intros f cs acc Ef' H. apply Nat.ltb_lt. apply (hit_run fb bb cs acc Cl HI Hdeg).
+      - intros c Hc. eapply cands_in_all; eauto.
+      - eapply hit_equiv; eauto. }
     unfold enumerate.
-    assert (I0 : iso_b r p = false).
-    { destruct (iso_b r p) eqn:E; auto. apply Hiso in E. contradiction. }
-    rewrite I0. cbn [andb]. rewrite (cedit_classify _ _ C).
+    assert (I0 : iso_b r p && (3 <? n) = false).
+    { destruct Hgo as [Hnot|[Hn _]].
+      - destruct (iso_b r p) eqn:E; auto. apply (proj1 Hloc) in E. contradiction.
+      - apply andb_false_iff. right. apply Nat.ltb_ge. lia. }
+    rewrite I0. rewrite Ecl.
     pose proof (cedit_total _ _ C) as Ht.
     destruct bb' as [|b1 [|b2 [|? ?]]]; destruct fb' as [|f1 [|f2 [|? ?]]];
       cbn [length] in *; try lia.
     - (* nothing changes: the product would be isomorphic to the reactant *)
-      exfalso. apply Hnot. apply Iso_trans with (apply_edit r [] []); [|apply C].
-      apply adj_equiv_Iso. split; [reflexivity|split; [reflexivity|split; [reflexivity|apply equiv_l_refl]]].
+      exfalso. destruct Hgo as [Hnot|[_ Hne]].
+      + apply Hnot. apply Iso_trans with (apply_edit r [] []); [|apply C].
+        apply adj_equiv_Iso. split; [reflexivity|split; [reflexivity|split; [reflexivity|apply equiv_l_refl]]].
+      + destruct bb; [congruence|cbn in Lb'; lia].
     - (* 1b *)
       replace (length (g_edges r)) with (length (g_edges p) + 1) by lia. rewrite funcs_of_1.
-      destruct (pat_1b b1 C) as [cs [Ec H]]. cbn [run_funcs cands]. rewrite Ec, (HR _ _ H). eauto.
+      destruct (pat_1b b1 C) as [cs [Ec H]]. cbn [run_funcs cands]. rewrite Ec, (HR F1b _ _ Ec H). eauto.
     - (* 1b1f *)
       replace (length (g_edges r)) with (length (g_edges p)) by lia. rewrite funcs_of_0.
-      cbn [run_funcs cands]. rewrite (HR _ _ (pat_1b1f b1 f1 C)). eauto.
+      cbn [run_funcs cands]. rewrite (HR F1b1f _ _ eq_refl (pat_1b1f b1 f1 C)). eauto.
     - (* 2b *)
       replace (length (g_edges r)) with (length (g_edges p) + 2) by lia. rewrite funcs_of_2.
-      cbn [run_funcs cands]. rewrite (HR _ _ (pat_2b b1 b2 C)). eauto.
+      cbn [run_funcs cands]. rewrite (HR F2b _ _ eq_refl (pat_2b b1 b2 C)). eauto.
     - (* 2b1f *)
       replace (length (g_edges r)) with (length (g_edges p) + 1) by lia. rewrite funcs_of_1.
       pose proof (pat_2b1f b1 b2 f1 C) as H. destruct (hit_2b1f_bb_nonempty _ _ H) as [cs1 Ec].
       cbn [run_funcs cands]. rewrite Ec.
       destruct (0 <? length (run_func iso_b mv r p cs1 [])); [eauto|].
-      rewrite (HR _ _ H). eauto.
+      rewrite (HR F2b1f _ _ eq_refl H). eauto.
     - (* 2b2f *)
       replace (length (g_edges r)) with (length (g_edges p)) by lia. rewrite funcs_of_0.
       cbn [run_funcs cands].
       destruct (0 <? length (run_func iso_b mv r p (cands_1b1f bk) [])); [eauto|].
-      rewrite (HR _ _ (pat_2b2f b1 b2 f1 f2 C)). eauto.
+      rewrite (HR F2b2f _ _ eq_refl (pat_2b2f b1 b2 f1 f2 C)). eauto.
   Qed.
 End Complete.
 
@@ -1867,7 +1916,7 @@ Section SaveLoad.
 
   Fixpoint str_forall (P : ascii -> bool) (s : string) : bool :=
     match s with EmptyString => true | String c s' => P c && str_forall P s' end.
-  Definition is_digit (c : ascii) : bool := (48 <=? nat_of_ascii c) && (nat_of_ascii c <=? 57).
+  Definition is_digit (c : ascii) : bool := is_digit_c c.
   Definition digit_or_blank (c : ascii) : bool := is_digit c || Ascii.eqb c " ".
 
   Lemma str_forall_app P a b : str_forall P (a ++ b) = str_forall P a && str_forall P b.
@@ -1897,18 +1946,36 @@ Section SaveLoad.
   Proof.
     unfold dec. pose proof (to_uint_nonnil n) as H. destruct (Nat.to_uint n); cbn; congruence.
   Qed.
-  Lemma parse_dec n : parse_nat (dec n) = Some n.
+  Lemma parse_nat_dec n : parse_nat (dec n) = Some n.
   Proof.
     unfold parse_nat. pose proof (dec_nonempty n) as H. destruct (dec n) eqn:E; [congruence|].
     rewrite <- E. unfold dec. rewrite NilEmpty.usu. cbn. rewrite DecimalNat.Unsigned.of_to. reflexivity.
+  Qed.
+  Lemma strip_us_digits s : forall b,
+    str_forall is_digit s = true -> (s <> "" \/ b = true) -> strip_us s b = Some s.
+  Proof.
+    induction s as [|c s IH]; intros b H Hb; cbn [strip_us].
+    - destruct Hb as [Hb| ->]; [congruence|reflexivity].
+    - cbn [str_forall] in H. apply andb_true_iff in H. destruct H as [Hc Hs]. unfold is_digit in Hc.
+      rewrite Hc. rewrite (IH true Hs) by (right; reflexivity). reflexivity.
+  Qed.
+  Lemma digit_not_sign c : is_digit c = true -> Ascii.eqb c plus_char = false /\ Ascii.eqb c minus_char = false.
+  Proof. destruct c as [[] [] [] [] [] [] [] []]; vm_compute; intuition congruence. Qed.
+  Lemma parse_dec n : parse_int (dec n) = TNat n.
+  Proof.
+    pose proof (dec_digits n) as Hd. pose proof (dec_nonempty n) as Hne. pose proof (parse_nat_dec n) as Hp.
+    unfold parse_int. destruct (dec n) as [|c r] eqn:E; [congruence|].
+    assert (Hc : is_digit c = true) by (cbn [str_forall] in Hd; apply andb_true_iff in Hd; tauto).
+    destruct (digit_not_sign c Hc) as [-> ->].
+    unfold parse_unsigned. rewrite (strip_us_digits _ false Hd) by (left; congruence). rewrite Hp. reflexivity.
   Qed.
 
   Lemma digit_not_ws c : is_digit c = true -> is_ws c = false.
   Proof. destruct c as [[] [] [] [] [] [] [] []]; vm_compute; congruence. Qed.
   Lemma digit_or_blank_not c k :
-    In k ["f"%char; "b"%char; "e"%char; nl_char] -> digit_or_blank c = true -> Ascii.eqb k c = false.
+    In k ["f"%char; "b"%char; "e"%char; nl_char; cr_char] -> digit_or_blank c = true -> Ascii.eqb k c = false.
   Proof.
-    intros Hk. cbn in Hk. destruct Hk as [<-|[<-|[<-|[<-|[]]]]];
+    intros Hk. cbn in Hk. destruct Hk as [<-|[<-|[<-|[<-|[<-|[]]]]]];
       destruct c as [[] [] [] [] [] [] [] []]; vm_compute; congruence.
   Qed.
 
@@ -1952,25 +2019,25 @@ Section SaveLoad.
     intros H. apply andb_true_iff in H. destruct H as [Hc Hs]. apply negb_true_iff in Hc.
     rewrite Hc. cbn. auto.
   Qed.
-  Lemma bl_no_kw e k p' : In k ["f"%char; "b"%char; "e"%char; nl_char] -> contains (String k p') (bl e) = false.
+  Lemma bl_no_kw e k p' : In k ["f"%char; "b"%char; "e"%char; nl_char; cr_char] -> contains (String k p') (bl e) = false.
   Proof.
     intros Hk. apply contains_absent. apply (str_forall_impl digit_or_blank); [|apply bl_chars].
     intros c Hc. rewrite (digit_or_blank_not c k Hk Hc). reflexivity.
   Qed.
 
   (* one loop iteration per kind of line *)
-  Lemma step_fbonds st : load_step st "fbonds" = Some (mkL true (l_fb st) (l_bb st) (l_out st)).
+  Lemma step_fbonds st : load_step st "fbonds" = inl (mkL true (l_fb st) (l_bb st) (l_out st)).
   Proof. reflexivity. Qed.
-  Lemma step_bbonds st : load_step st "bbonds" = Some (mkL false (l_fb st) (l_bb st) (l_out st)).
+  Lemma step_bbonds st : load_step st "bbonds" = inl (mkL false (l_fb st) (l_bb st) (l_out st)).
   Proof. reflexivity. Qed.
   Lemma step_end st :
-    load_step st "end" = Some (mkL (l_block st) [] [] (l_out st ++ [(l_fb st, l_bb st)])).
+    load_step st "end" = inl (mkL (l_block st) [] [] (l_out st ++ [(l_fb st, l_bb st)])).
   Proof. reflexivity. Qed.
-  Lemma step_empty st : load_step st "" = Some (mkL (l_block st) (l_fb st) (l_bb st) (l_out st)).
+  Lemma step_empty st : load_step st "" = inl (mkL (l_block st) (l_fb st) (l_bb st) (l_out st)).
   Proof. reflexivity. Qed.
   Lemma step_bond st e :
     load_step st (bl e) =
-    Some (if l_block st then mkL (l_block st) (l_fb st ++ [e]) (l_bb st) (l_out st)
+    inl (if l_block st then mkL (l_block st) (l_fb st ++ [e]) (l_bb st) (l_out st)
           else mkL (l_block st) (l_fb st) (l_bb st ++ [e]) (l_out st)).
   Proof.
     unfold load_step.
@@ -1980,27 +2047,27 @@ Section SaveLoad.
     rewrite tokens_bl, !parse_dec. destruct e as [a b]. cbn [fst snd]. destruct (l_block st); reflexivity.
   Qed.
 
-  Fixpoint steps (ls : list string) (st : lstate) : option lstate :=
+  Fixpoint steps (ls : list string) (st : lstate) : lstate + lerr :=
     match ls with
-    | [] => Some st
-    | ln :: rest => match load_step st ln with None => None | Some st' => steps rest st' end
+    | [] => inl st
+    | ln :: rest => match load_step st ln with inr e => inr e | inl st' => steps rest st' end
     end.
   Lemma load_lines_steps ls : forall st,
-    load_lines ls st = match steps ls st with Some s => Some (l_out s) | None => None end.
+    load_lines ls st = match steps ls st with inl s => inl (l_out s) | inr e => inr e end.
   Proof. induction ls as [|ln ls IH]; intros st; cbn; auto. destruct (load_step st ln); auto. Qed.
   Lemma steps_app l1 : forall l2 st,
-    steps (l1 ++ l2) st = match steps l1 st with Some s => steps l2 s | None => None end.
+    steps (l1 ++ l2) st = match steps l1 st with inl s => steps l2 s | inr e => inr e end.
   Proof. induction l1 as [|ln l1 IH]; intros l2 st; cbn; auto. destruct (load_step st ln); auto. Qed.
 
   Lemma steps_fb es : forall fb0 bb0 out,
-    steps (map bl es) (mkL true fb0 bb0 out) = Some (mkL true (fb0 ++ es) bb0 out).
+    steps (map bl es) (mkL true fb0 bb0 out) = inl (mkL true (fb0 ++ es) bb0 out).
   Proof.
     induction es as [|e es IH]; intros fb0 bb0 out; cbn [map steps].
     - rewrite app_nil_r. reflexivity.
     - rewrite step_bond. cbn [l_block l_fb l_bb l_out]. rewrite IH, <- app_assoc. reflexivity.
   Qed.
   Lemma steps_bb es : forall fb0 bb0 out,
-    steps (map bl es) (mkL false fb0 bb0 out) = Some (mkL false fb0 (bb0 ++ es) out).
+    steps (map bl es) (mkL false fb0 bb0 out) = inl (mkL false fb0 (bb0 ++ es) out).
   Proof.
     induction es as [|e es IH]; intros fb0 bb0 out; cbn [map steps].
     - rewrite app_nil_r. reflexivity.
@@ -2011,7 +2078,7 @@ Section SaveLoad.
     ["fbonds"] ++ map bl (fst br) ++ ["bbonds"] ++ map bl (snd br) ++ ["end"].
 
   Lemma steps_rearr br blk out :
-    steps (lines_of_rearr br) (mkL blk [] [] out) = Some (mkL false [] [] (out ++ [br])).
+    steps (lines_of_rearr br) (mkL blk [] [] out) = inl (mkL false [] [] (out ++ [br])).
   Proof.
     unfold lines_of_rearr. destruct br as [fb bb]. cbn [fst snd].
     cbn [app steps]. rewrite step_fbonds. cbn [l_fb l_bb l_out].
@@ -2019,7 +2086,7 @@ Section SaveLoad.
     rewrite steps_app, steps_bb. cbn [app steps]. rewrite step_end. reflexivity.
   Qed.
   Lemma steps_rearrs brs : forall blk out,
-    exists blk', steps (flat_map lines_of_rearr brs) (mkL blk [] [] out) = Some (mkL blk' [] [] (out ++ brs)).
+    exists blk', steps (flat_map lines_of_rearr brs) (mkL blk [] [] out) = inl (mkL blk' [] [] (out ++ brs)).
   Proof.
     induction brs as [|br brs IH]; intros blk out; cbn [flat_map].
     - exists blk. rewrite app_nil_r. reflexivity.
@@ -2048,14 +2115,17 @@ Section SaveLoad.
     cbn [flat_map]. rewrite concat_map_app, <- save_one_lines, <- IH. reflexivity.
   Qed.
 
-  Definition no_nl (s : string) : bool := str_forall (fun c => negb (Ascii.eqb nl_char c)) s.
+  Definition no_nl (s : string) : bool :=
+    str_forall (fun c => negb (Ascii.eqb nl_char c) && negb (Ascii.eqb cr_char c)) s.
   Lemma split_nl_aux_line s : forall cur rest,
     no_nl s = true -> split_nl_aux (s ++ String nl_char rest) cur = (cur ++ s) :: split_nl_aux rest "".
   Proof.
     induction s as [|c s IH]; intros cur rest H; cbn [append split_nl_aux].
     - rewrite Ascii.eqb_refl, append_nil_r. reflexivity.
-    - unfold no_nl in H. cbn [str_forall] in H. apply andb_true_iff in H. destruct H as [Hc Hs]. apply negb_true_iff in Hc.
-      rewrite Ascii.eqb_sym in Hc. rewrite Hc. rewrite IH by auto. rewrite append_assoc. reflexivity.
+    - unfold no_nl in H. cbn [str_forall] in H. apply andb_true_iff in H. destruct H as [Hc Hs].
+      apply andb_true_iff in Hc. destruct Hc as [Hc1 Hc2]. apply negb_true_iff in Hc1, Hc2.
+      rewrite Ascii.eqb_sym in Hc1. rewrite Ascii.eqb_sym in Hc2. rewrite Hc1, Hc2.
+      rewrite IH by auto. rewrite append_assoc. reflexivity.
   Qed.
   Lemma split_nl_lines ls :
     (forall l, In l ls -> no_nl l = true) -> split_nl (concat_map line ls) = (ls ++ [""])%list.
@@ -2070,7 +2140,7 @@ Section SaveLoad.
   Lemma bl_no_nl e : no_nl (bl e) = true.
   Proof.
     unfold no_nl. apply (str_forall_impl digit_or_blank); [|apply bl_chars].
-    intros c Hc. rewrite (digit_or_blank_not c nl_char); auto. cbn; auto.
+    intros c Hc. rewrite (digit_or_blank_not c nl_char), (digit_or_blank_not c cr_char); auto; cbn; auto 10.
   Qed.
   Lemma lines_no_nl brs l : In l (flat_map lines_of_rearr brs) -> no_nl l = true.
   Proof.
@@ -2080,7 +2150,7 @@ Section SaveLoad.
       cbn in H; destruct H as [<-|[]]; reflexivity.
   Qed.
 
-  Theorem load_save brs : load (save brs) = Some brs.
+  Theorem load_save brs : load (save brs) = inl brs.
   Proof.
     unfold load. rewrite save_lines, split_nl_lines by (apply lines_no_nl).
     rewrite load_lines_steps, steps_app.
